@@ -213,6 +213,13 @@ func (x *Exec) cover(st *State, label string, n ast.Node) {
 	if st.dead {
 		return
 	}
+	if x.con != nil {
+		for _, a := range x.con.AllowDead {
+			if strings.Contains(label, a) {
+				return // the contract declares this code dead under its preconditions
+			}
+		}
+	}
 	name := x.fi.Key + "/cover[" + label + "]"
 	o := &Obligation{Name: name, Func: x.fi.Key, Kind: "cover", Label: label, Path: strings.Join(st.tags, "/"), Pos: x.posOf(n), Expect: "sat"}
 	if x.con != nil {
@@ -384,7 +391,7 @@ func (x *Exec) regField(structT types.Type, f *types.Var) string {
 
 func (x *Exec) regElem(elemT types.Type) string {
 	es := x.ctx.sortOf(elemT)
-	k := elemKey(es)
+	k := elemKeyT(elemT)
 	if _, ok := x.memSort[k]; !ok {
 		x.memSort[k] = "(Array Int (Array Int " + es + "))"
 	}
@@ -426,10 +433,12 @@ func (x *Exec) storeField(st *State, ptr Term, structT types.Type, f *types.Var,
 	st.mem[key] = nm
 }
 
-func elemKey(elemSort string) string { return "E!" + sortID(elemSort) }
+// Element memories are separated by the Go element type (slices of different element types cannot alias in the
+// absence of unsafe); named element types keep their own memory, basic types share one per kind.
+func elemKeyT(elemT types.Type) string { return "E!" + sanitize(typeName(elemT)) }
 
-func (x *Exec) elemMem(st *State, elemSort string) Term {
-	return x.memTerm(st, elemKey(elemSort), "(Array Int (Array Int "+elemSort+"))")
+func (x *Exec) elemMemT(st *State, elemT types.Type) Term {
+	return x.memTerm(st, x.regElem(elemT), "(Array Int (Array Int "+x.ctx.sortOf(elemT)+"))")
 }
 
 // viewOf returns the array term V with V[k] = s[k] under the current element memory (k relative to the
@@ -440,7 +449,7 @@ func (x *Exec) viewOf(st *State, s Term, elemT types.Type) (Term, bool) {
 		return Term{}, false
 	}
 	es := x.ctx.sortOf(elemT)
-	m := x.elemMem(st, es)
+	m := x.elemMemT(st, elemT)
 	s = x.define(st, "sl", s)
 	key := m.S + "|" + s.S
 	if v, ok := x.ctx.views[key]; ok {
@@ -509,16 +518,16 @@ func (x *Exec) loadElem(st *State, s Term, i Term, elemT types.Type) Term {
 	if v, ok := x.viewOf(st, s, elemT); ok {
 		return Term{S: app("select", v.S, i.S), Sort: es, T: elemT}
 	}
-	m := x.elemMem(st, es)
+	m := x.elemMemT(st, elemT)
 	return Term{S: app("select", app("select", m.S, app("s-arr", s.S)), app("+", app("s-off", s.S), i.S)), Sort: es, T: elemT}
 }
 
 func (x *Exec) storeElem(st *State, s Term, i Term, elemT types.Type, v Term) {
 	es := x.ctx.sortOf(elemT)
-	key := elemKey(es)
+	key := x.regElem(elemT)
 	s = x.define(st, "sl", s)
 	old, _ := x.viewOf(st, s, elemT)
-	m := x.elemMem(st, es)
+	m := x.elemMemT(st, elemT)
 	arr := app("s-arr", s.S)
 	inner := app("store", app("select", m.S, arr), app("+", app("s-off", s.S), i.S), v.S)
 	nm := x.define(st, "e_"+sortID(es), Term{S: app("store", m.S, arr, inner), Sort: m.Sort})
